@@ -110,6 +110,7 @@ def body(H, case):
     psi0 = H.cplxs("p", ns)
     mu0 = H.reals("m", ns)
     zed = H.array([0.0] * ne) if H.mode == "sym" else np.zeros(ne)
+    A_before = solver.current_A_applied
     res = solver.update({"step": 1, "time": dt, "dt": dt}, rs, dt, psi=psi0, mu=mu0, supercurrent=zed, normal_current=zed,
                         induced_vector_potential=S.zeros2(H, ne, 2), applied_vector_potential=solver.current_A_applied)
     J = res.supercurrent + res.normal_current
@@ -127,16 +128,29 @@ def body(H, case):
             density[int(e)] = (J_scale * currents[nm]) / L
         H.prove_eq(f"terminal {nm}: length = covered boundary length", t.length, L)
     mub = solver.mu_boundary
-    for k, b in enumerate(bidx):
-        H.prove_eq(f"boundary edge {b}: flux = terminal current density (zero on insulating edges)", K.at(mub, k), density[b])
+    H.prove_conj_eq("every boundary edge: flux = terminal current density (zero on insulating edges)", [(K.at(mub, k), density[b]) for k, b in enumerate(bidx)])
     inj = [0.0] * ns
     for b in bidx:
         i, j = int(em.edges[b][0]), int(em.edges[b][1])
         half = K.at(em.edge_lengths, b) * density[b] / 2
         inj[i] = inj[i] + half
         inj[j] = inj[j] + half
+    # Per-cell conservation  a_i div(Js+Jn)_i = injected current, decided as three small obligations
+    # whose conjunction implies it (nlsat's running time on the combined query is erratic):
+    #   A  div(Js+Jn)_i = div(Js - dA/dt)_i - (L mu)_i          (definition of J_n; no solve needed)
+    #   B  (L mu)_i = div(Js - dA/dt)_i - (B mu_b)_i            (mu solves the Poisson system)
+    #   C  a_i (B mu_b)_i = injected current of cell i           (boundary-flux operator and mu_b)
+    ops_ = solver.operators
+    dA_dt = (solver.current_A_applied - A_before) / dt
+    nd = mesh.edge_mesh.normalized_directions
+    dAdt_e = H.array([K.at(dA_dt, e, 0) * float(nd[e, 0]) + K.at(dA_dt, e, 1) * float(nd[e, 1]) for e in range(ne)]) if H.mode == "sym" else np.einsum("ij,ij->i", dA_dt, nd)
+    Dsrc = K.elems(ops_.divergence @ (res.supercurrent - dAdt_e))
+    Lmu = K.elems(ops_.mu_laplacian @ res.mu)
+    Bmub = K.elems(ops_.mu_boundary_laplacian @ solver.mu_boundary)
     for i in range(ns):
-        H.prove_eq(f"cell {i}: a_i div(Js+Jn)_i = injected terminal current", areas[i] * DJ[i], inj[i], slice=True, timeout=120)
+        H.prove_eq(f"cell {i}: A  div(Js+Jn) = div(Js - dA/dt) - L mu", DJ[i], Dsrc[i] - Lmu[i], slice=True)
+    H.prove_conj_eq("every cell: B  L mu = div(Js - dA/dt) - B mu_b (Poisson solve)", [(Lmu[i], Dsrc[i] - Bmub[i]) for i in range(ns)])
+    H.prove_conj_eq("every cell: C  a_i (B mu_b)_i = injected terminal current", [(areas[i] * Bmub[i], inj[i]) for i in range(ns)])
     xi = dev.coherence_length.magnitude
     for nm in names:
         t = tinfo[nm]
